@@ -86,7 +86,7 @@ def generate(tier, rng):
         for _ in range(rng.randint(10, 60)):
             x = rng.random()
             steps.append({"act": "DStep"} if x < 0.6 else {"act": "Callback"} if x < 0.9 else
-                         {"act": rng.choice(["Stop", "Pop", "Pop", "Discard"])} if x < 0.96 else {"act": "DStep"})
+                         {"act": rng.choice(["Stop", "Pop", "Pop", "Discard", "Pause"])} if x < 0.96 else {"act": "DStep"})
         steps += [{"act": "Callback"}, {"act": "Pop"}, {"act": "Callback"}, {"act": "Callback"}]
         scen.append({"r": r, "len": ln, "pk": rng.choice([1, 2, 3, 5]), "fail": rng.choice([0, 0, 1, 2, 3, 4, 6, 9]),
                      "nf": rng.choice([1, 2, 4]), "src": "random", "eos": 2 if k % 10 == 9 else 1, "steps": steps})
